@@ -191,6 +191,7 @@ func (lg *ledger) postBounds(call *ssa.Call, flagIdx int) []diffC {
 		posts = cached.([]post)
 	} else {
 		lgG := newLedger(w, g)
+		lgG.depth = 2 // what g guarantees is established inside g: its callers are not consulted (and cannot consult g again)
 		var cands []post
 		nres := g.Signature.Results().Len()
 		for i := 0; i < nres; i++ {
